@@ -198,8 +198,29 @@ def case_lscap(ctx, rng, descs):
         ctx.violation('replay:abort', '{} | {!r}'.format(
             env.MACHINE_STOPS[0][:3], script[:200]), replay)
         return
-    if compare(ctx, devices, want, replay, script):
-        ctx.count('roundtrips_lscap')
+    if not compare(ctx, devices, want, replay, script):
+        return
+    ctx.count('roundtrips_lscap')
+    # "run later ... in any other state": the lights are changed again behind
+    # the controller's back (or through a broadcast) and the same script is
+    # replayed once more by a new job on the same light directory
+    for again in range(rng.choice([0, 1, 1, 2])):
+        randomise(rng, devices)
+        if rng.random() < 0.4:
+            ScriptJob.from_string(
+                'hue 77 saturation 10 brightness 20 kelvin 3000 set all '
+                + rng.choice(['on all', 'off all', ''])).execute()
+        env.reset_monitors()
+        job2 = job if rng.random() < 0.5 else ScriptJob.from_string(script)
+        job2.execute()
+        replay['replays'] = again + 2
+        if env.MACHINE_STOPS:
+            ctx.violation('replay:abort', 'replay #{}: {} | {!r}'.format(
+                again + 2, env.MACHINE_STOPS[0][:3], script[:200]), replay)
+            return
+        if not compare(ctx, devices, want, replay, script):
+            return
+        ctx.count('repeated_replays')
 
 
 def case_web(ctx, rng, descs, workdir):
